@@ -246,6 +246,7 @@ func c15PerCase(rt *rapid.T, s *Scenario, ev *Evidence) []Finding {
 	for _, f := range viol {
 		if known.Has(f.Sig) {
 			ev.Known(f.Sig, fmt.Sprintf("KNOWN-FINDING: property=C15 sig=%s %s", f.Sig, f.Msg))
+			dumpKnown("C15", f, s)
 			continue
 		}
 		out = append(out, f)
